@@ -5,17 +5,30 @@
 //! `fix_string` is the newline-normalised source, repeated / fresh-linter runs give the same
 //! violations (`H_pure`), and the fix loop observed through the `cfg(sqruff_verif)` hook does what
 //! the Gallina `lint_fix_parsed false` predicts (group `lintloop`).
-//! Part B (scheduling, worker processes with RAYON_NUM_THREADS = 1, 4, 16): `lint_paths` on batches
-//! (subsets, permutations, directories, same content under different names) with reused and fresh
-//! `Linter`s, compared with `lint_string` per file; the `Sched` model is replayed on the recorded
-//! expansion lists (group `sched`); digests are compared across the worker processes.
+//! Part B (worker processes with RAYON_NUM_THREADS = 1, 4, 16):
+//! * scheduling: `lint_paths` on batches (subsets, permutations, directories, same content under different
+//!   names; single files / single directories / no argument / nothing but ignored files; several ignore
+//!   predicates; two rule sets) with reused and fresh `Linter`s, compared with `lint_string` per file; the
+//!   `Sched` model is replayed on the recorded expansion lists (group `sched`);
+//! * verdict: the same invocations with an `OutputStreamFormatter` (verbosity 0, 1, 2, -1) or a
+//!   `JsonFormatter` attached, and `lint_string` sequences on one linter + formatter: `has_fail`, the
+//!   number of files reported and the JSON collection are those of the files linted alone, whatever the
+//!   order (group `verdict`: the Gallina `dispatch_all`);
+//! * configuration histories: some forty configurations (dialects, rule sets, rule options, every
+//!   placeholder style, several `param_regex`) used one after the other in a different order in each
+//!   worker process, fresh and interleaved linters, `lint_string` and `lint_paths`: what is reported for
+//!   (content, configuration) is the same in every process (`H_pure_history`);
+//! digests are compared across the worker processes.
 use std::cell::RefCell;
 use std::collections::{BTreeMap, HashMap};
 use std::io::Write as _;
 use std::path::{Path, PathBuf};
 use std::rc::Rc;
+use std::sync::Arc;
 
 use serde_json::{Value, json};
+use sqruff_lib::cli::formatters::{Formatter, OutputStreamFormatter};
+use sqruff_lib::cli::json::JsonFormatter;
 use sqruff_lib::core::config::FluffConfig;
 use sqruff_lib::core::linter::core::{Linter, verif_hook};
 use sqruff_lib::core::rules::base::LintPhase;
@@ -206,7 +219,7 @@ fn purity_items(args: &Args) -> Vec<Item> {
     items
 }
 
-// ------------------------------------------------------------------ part B: scheduling
+// ------------------------------------------------------------------ part B: scheduling, verdict, configuration histories
 const SNIPPETS: [&str; 10] = [
     "SELECT a FROM t\n",
     "SeLeCt  a from t\n",
@@ -243,6 +256,21 @@ const TREE: [(&str, usize); 20] = [
     ("d4/o.sql", 2),
     ("d4/p.sql", 1),
 ];
+/// Linter configurations of the batches and string sequences: the default rule set (most snippets
+/// fail) and a small one (most snippets are clean), so that batches mix failing and clean files.
+const BCFG: [(&str, &str); 2] = [("ansi-default", "[sqruff]\ndialect = ansi\n"), ("ansi-cp01-lt12", "[sqruff]\ndialect = ansi\nrules = CP01,LT12\n")];
+/// Verbosities of the `OutputStreamFormatter` runs (the CLI takes it from `[sqruff] verbose`).
+const VERBOSITIES: [i32; 4] = [0, 1, 2, -1];
+/// Ignore predicates (on the path relative to the working directory).
+const N_IGNORERS: usize = 4;
+fn ignored_rel(k: usize, rel: &str) -> bool {
+    match k {
+        0 => rel.contains("skip"),
+        1 => false,
+        2 => rel.contains("skip") || rel.starts_with("d2/sub") || rel.ends_with("top.sql"),
+        _ => true,
+    }
+}
 
 fn cache_dir() -> PathBuf {
     if let Ok(t) = std::env::var("CARGO_TARGET_DIR") {
@@ -253,17 +281,28 @@ fn cache_dir() -> PathBuf {
     let exe = std::env::current_exe().unwrap();
     exe.ancestors().nth(3).map(|p| p.to_path_buf()).unwrap_or_else(std::env::temp_dir)
 }
-fn ignorer(p: &Path) -> bool {
-    p.to_string_lossy().contains("skip")
-}
 fn is_sql(p: &str) -> bool {
     p.to_lowercase().ends_with(".sql")
+}
+fn rel_of(wd: &str, p: &str) -> String {
+    let p = p.strip_prefix(wd).map(|x| x.trim_start_matches('/')).unwrap_or(p);
+    p.trim_start_matches("./").to_string()
+}
+fn mk_cfg_linter(src: &str, fmt: Option<Arc<dyn Formatter>>) -> Linter {
+    Linter::new(FluffConfig::from_source(src, None), fmt, None, false)
+}
+/// (fails, warns) as `OutputStreamFormatter::format_file_violations` counts them, and "some violation
+/// is not a warning" (what `JsonFormatter::has_fail` looks at).
+fn fail_counts(vs: &[SQLBaseError]) -> (usize, usize, bool) {
+    (vs.iter().filter(|v| !v.ignore && !v.warning).count(), vs.iter().filter(|v| v.warning).count(), vs.iter().any(|v| !v.warning))
 }
 
 #[derive(Clone)]
 struct Batch {
     cls: &'static str,
     args: Vec<String>,
+    ign: usize,
+    cfg: usize,
 }
 /// Distinct, non-overlapping path arguments: each top-level directory is given either as a whole,
 /// or through some of its files / sub-directories.
@@ -331,155 +370,618 @@ fn gen_batch(rng: &mut Rng) -> Batch {
         }
     }
     rng.shuffle(&mut args);
-    Batch { cls, args }
+    // mostly the "skip" ignorer and the default configuration; the others now and then
+    let ign = if rng.chance(2, 3) { 0 } else { rng.below(N_IGNORERS) };
+    let cfg = if rng.chance(2, 3) { 0 } else { 1 };
+    Batch { cls, args, ign, cfg }
+}
+/// Small batches: one file, two files, three files (any file of the tree, ignored or not, in any order).
+fn gen_small(rng: &mut Rng) -> Batch {
+    let n = 1 + rng.below(3);
+    let mut ids: Vec<usize> = (0..TREE.len()).collect();
+    rng.shuffle(&mut ids);
+    let args = ids.iter().take(n).map(|i| TREE[*i].0.to_string()).collect();
+    Batch { cls: "small-batch", args, ign: rng.below(N_IGNORERS), cfg: rng.below(BCFG.len()) }
 }
 fn batches(args: &Args) -> Vec<Batch> {
     let mut rng = Rng::new(args.seed ^ 0x5c4ed);
-    let mut v = vec![
-        Batch { cls: "regression", args: vec!["d1".into(), "d2".into()] },
-        Batch { cls: "regression", args: vec!["d2/sub".into(), "d2/a.sql".into(), "d1/a.sql".into(), "d3".into()] },
-        Batch { cls: "regression", args: vec!["zz_last.sql".into(), "top.sql".into()] },
-    ];
+    let b = |cls: &'static str, a: &[&str], ign: usize, cfg: usize| Batch { cls, args: a.iter().map(|s| s.to_string()).collect(), ign, cfg };
+    let mut v = vec![b("regression", &["d1", "d2"], 0, 0), b("regression", &["d2/sub", "d2/a.sql", "d1/a.sql", "d3"], 0, 0), b("regression", &["zz_last.sql", "top.sql"], 0, 0)];
+    // degenerate invocations: every file of the tree alone (ignored ones included), every directory alone
+    // (one of them holds a single, ignored, file), no argument at all (= the working directory),
+    // nothing but ignored files, everything ignored
+    for (i, (p, _)) in TREE.iter().enumerate() {
+        v.push(b("single-file", &[p], 0, i % BCFG.len()));
+    }
+    for d in ["d1", "d2", "d3", "d4", "d2/sub", "d2/sub/deep", "d3/skip_dir", "."] {
+        v.push(b("single-dir", &[d], 0, 0));
+    }
+    v.push(b("no-argument", &[], 0, 0));
+    v.push(b("no-argument", &[], 1, 1));
+    v.push(b("only-ignored", &["d3/skip_i.sql", "d3/skip_dir"], 0, 0));
+    v.push(b("only-ignored", &["d3/skip_dir/l.sql", "d3/skip_i.sql"], 0, 1));
+    v.push(b("only-ignored", &["d1", "top.sql", "d2"], 3, 0));
+    v.push(b("only-ignored", &["d4/o.sql"], 3, 0));
+    v.push(b("single-file", &["d2/sub/g.sql"], 2, 0));
+    v.push(b("single-file", &["top.sql"], 2, 1));
+    for _ in 0..(if args.thorough() { 120 } else { 16 }) {
+        v.push(gen_small(&mut rng));
+    }
     for _ in 0..(if args.thorough() { 400 } else { 60 }) {
         v.push(gen_batch(&mut rng));
     }
     v
 }
 
+/// What the three parts of a worker have in common.
+struct RefEntry {
+    rid: usize,
+    viols: Vec<Viol>,
+    fails: usize,
+    json_fail: bool,
+    diags: Value,
+}
+struct Worker {
+    wd: String,
+    threads: String,
+    /// per configuration of `BCFG`, per file of `TREE`: `lint_string` of the content on a fresh linter
+    reference: Rc<Vec<Vec<RefEntry>>>,
+    wr: std::io::BufWriter<std::fs::File>,
+}
+impl Worker {
+    fn emit(&mut self, v: Value) {
+        writeln!(self.wr, "{}", v).unwrap();
+    }
+    fn dfail(&mut self, cls: &str, key: &str, msg: &str, input: &Value) {
+        self.emit(json!({"t":"dfail","cls":cls,"key":key,"msg":msg,"input":input}));
+    }
+    fn dok(&mut self, cls: &str, n: usize) {
+        self.emit(json!({"t":"dcount","cls":cls,"n":n}));
+    }
+    fn file_id(&self, p: &str) -> usize {
+        let r = rel_of(&self.wd, p);
+        TREE.iter().position(|x| x.0 == r).unwrap_or(9999)
+    }
+}
+
+/// One `lint_paths` call on a batch; every clause of the property that is visible in the result, in
+/// the formatter attached to the linter (if any) and the case for the `sched` model.
+fn run_batch(w: &mut Worker, b: &Batch, input: &Value, linter: &mut Linter, run_name: &str, exps: &[Vec<usize>], ignored: &[usize], selected: &[usize], stream: Option<(&Arc<OutputStreamFormatter>, i32)>, jsonf: Option<&Arc<JsonFormatter>>) -> Option<(u64, bool)> {
+    let wd = w.wd.clone();
+    let ign = b.ign;
+    let ignorer = move |p: &Path| ignored_rel(ign, &rel_of(&wd, &p.to_string_lossy()));
+    let paths: Vec<PathBuf> = b.args.iter().map(PathBuf::from).collect();
+    let r = catch(|| {
+        let res = linter.lint_paths(paths, false, &ignorer);
+        res.paths.iter().map(|d| (d.path.clone(), d.files.iter().map(|f| (f.path.clone(), canon(&f.violations), f.patches.len(), fail_counts(&f.violations))).collect::<Vec<_>>())).collect::<Vec<_>>()
+    });
+    let dirs = match r {
+        Ok(d) => d,
+        Err(m) => {
+            w.dfail(b.cls, "c07-lint-paths-panic", &format!("lint_paths panicked: {}", m), input);
+            return None;
+        }
+    };
+    let refs = w.reference.clone();
+    let reference = &refs[b.cfg];
+    // with no argument the working directory is linted
+    let want_dirs: Vec<String> = if b.args.is_empty() { vec![w.wd.clone()] } else { b.args.clone() };
+    let mut fails: Vec<(String, String)> = vec![];
+    let mut seen: HashMap<usize, usize> = HashMap::new();
+    let mut observed: Vec<Vec<(usize, usize)>> = vec![];
+    let mut counts: Vec<(usize, usize)> = vec![];
+    let mut dig: Vec<(String, u64)> = vec![];
+    if dirs.len() != want_dirs.len() {
+        fails.push(("c07-dir-order".into(), format!("the result has {} directories for {} arguments", dirs.len(), want_dirs.len())));
+    }
+    for (di, (dpath, files)) in dirs.iter().enumerate() {
+        if di >= want_dirs.len() || *dpath != want_dirs[di] {
+            fails.push(("c07-dir-order".into(), format!("directory {} of the result is {:?}, argument is {:?}", di, dpath, want_dirs.get(di))));
+        }
+        let mut bucket = vec![];
+        for (p, v, np, fc) in files {
+            let id = w.file_id(p);
+            let p = rel_of(&w.wd, p);
+            *seen.entry(id).or_default() += 1;
+            let rid = match reference.get(id) {
+                Some(e) if e.viols == *v => e.rid,
+                Some(e) => {
+                    fails.push((format!("c07-differs-from-lint-string:{}", p), format!("{}: lint_paths reports {:?}, lint_string reports {:?}", p, v, e.viols)));
+                    8888
+                }
+                None => 9999,
+            };
+            if *np != 0 {
+                fails.push((format!("c07-lint-patches:{}", p), format!("{}: lint-only result carries {} patches", p, np)));
+            }
+            if di < exps.len() && !exps[di].contains(&id) {
+                fails.push((format!("c07-wrong-dir:{}", p), format!("{} stored under argument {:?}", p, dpath)));
+            }
+            bucket.push((id, rid));
+            counts.push((fc.0, fc.1));
+            dig.push((p.clone(), fnv(&format!("{:?}", v))));
+        }
+        observed.push(bucket);
+    }
+    let name = |id: usize| TREE.get(id).map(|x| x.0).unwrap_or("?");
+    for s in selected {
+        let n = seen.get(s).copied().unwrap_or(0);
+        if n != 1 {
+            fails.push((format!("c07-not-exactly-once:{}", name(*s)), format!("selected file {} appears {} times in the result", name(*s), n)));
+        }
+    }
+    for id in seen.keys() {
+        if !selected.contains(id) {
+            fails.push((format!("c07-unselected:{}", name(*id)), format!("file {:?} was not selected (ignored: {}) but appears in the result", name(*id), ignored.contains(id))));
+        }
+    }
+    // the verdict of the invocation as the formatter holds it
+    let failing: Vec<&str> = selected.iter().filter(|s| reference.get(**s).is_some_and(|e| e.fails > 0)).map(|s| name(*s)).collect();
+    let stored: Vec<&str> = observed.iter().flatten().map(|x| name(x.0)).collect();
+    let mut verdict = false;
+    if let Some((f, v)) = stream {
+        let got = f.has_fail();
+        verdict = got;
+        let want = v >= 0 && !failing.is_empty();
+        if got != want {
+            fails.push((format!("c07-verdict:{}:v{}", BCFG[b.cfg].0, v), format!("verbosity {}: has_fail() is {} after lint_paths, but the failing files of the batch are {:?} (files as stored: {:?})", v, got, failing, stored)));
+        }
+        let n = f.verif_files_dispatched();
+        let want_n = if v >= 0 { selected.len() } else { 0 };
+        if n != want_n {
+            fails.push((format!("c07-files-dispatched:v{}", v), format!("verbosity {}: the formatter counted {} files, {} were selected", v, n, want_n)));
+        }
+        let g_args = g_tuple(&[g_bool(v < 0), v.unsigned_abs().to_string(), g_list(counts.iter().map(|c| g_tuple(&[c.0.to_string(), c.1.to_string()])))]);
+        let g_exp = g_tuple(&[g_bool(got), n.to_string()]);
+        w.emit(json!({"t":"wcase","group":"verdict","cls":b.cls,"nontrivial":!failing.is_empty() && failing.len() < selected.len() && v >= 0,"args":g_args,"exp":g_exp,
+            "sample":{"input":input,"run":run_name,"verbosity":v,"counts":counts,"has_fail":got,"files_dispatched":n}}));
+    }
+    if let Some(f) = jsonf {
+        let got = f.has_fail();
+        verdict = got;
+        let want = selected.iter().any(|s| reference.get(*s).is_some_and(|e| e.json_fail));
+        if got != want {
+            fails.push((format!("c07-verdict:{}:json", BCFG[b.cfg].0), format!("JsonFormatter::has_fail() is {} after lint_paths, but the failing files of the batch are {:?}", got, failing)));
+        }
+        let coll: Value = serde_json::from_str(&f.verif_to_json()).unwrap_or(Value::Null);
+        let empty = serde_json::Map::new();
+        let coll = coll.as_object().unwrap_or(&empty);
+        let mut keys: Vec<usize> = coll.keys().map(|k| w.file_id(k)).collect();
+        keys.sort();
+        let mut sel = selected.to_vec();
+        sel.sort();
+        if keys != sel {
+            fails.push(("c07-json-files".into(), format!("the JSON collection has entries for {:?}, selected were {:?}", coll.keys().collect::<Vec<_>>(), sel.iter().map(|s| name(*s)).collect::<Vec<_>>())));
+        }
+        for (k, d) in coll {
+            if let Some(e) = reference.get(w.file_id(k)) {
+                if e.diags != *d {
+                    fails.push((format!("c07-json-differs:{}", rel_of(&w.wd, k)), format!("{}: the JSON collection holds {}, linting the file alone gives {}", k, trunc(&d.to_string(), 300), trunc(&e.diags.to_string(), 300))));
+                }
+            }
+        }
+    }
+    w.dok("lint_paths-run", 1);
+    for (key, msg) in &fails {
+        w.dfail(b.cls, key, msg, input);
+    }
+    if stream.is_none() && jsonf.is_none() {
+        let order: Vec<usize> = observed.iter().flatten().map(|x| x.0).collect();
+        let g_args = g_tuple(&[
+            g_list(exps.iter().map(|e| g_list(e.iter().map(|i| i.to_string())))),
+            g_list(ignored.iter().map(|i| i.to_string())),
+            g_list(reference.iter().enumerate().map(|(i, e)| g_tuple(&[i.to_string(), e.rid.to_string()]))),
+            g_list(order.iter().map(|i| i.to_string())),
+        ]);
+        let g_exp = g_list(observed.iter().map(|b| g_list(b.iter().map(|(i, r)| g_tuple(&[i.to_string(), r.to_string()])))));
+        let multi = b.args.len() > 1 && selected.len() > 2;
+        w.emit(json!({"t":"wcase","group":"sched","cls":b.cls,"nontrivial":multi,"args":g_args,"exp":g_exp,
+            "sample":{"input":input,"run":run_name,"expansions":exps,"observed":observed}}));
+    }
+    let reordered = observed.iter().flatten().map(|x| x.0).collect::<Vec<_>>() != selected;
+    dig.sort();
+    Some((fnv(&format!("{:?}|{}", dig, if stream.is_some() || jsonf.is_some() { verdict as u8 } else { 2 })), reordered))
+}
+
+fn batch_part(w: &mut Worker, bs: &[Batch]) {
+    let mut reused: Vec<Linter> = BCFG.iter().map(|c| mk_cfg_linter(c.1, None)).collect();
+    let mut reordered = 0usize;
+    let mut runs = 0usize;
+    for (bi, b) in bs.iter().enumerate() {
+        let input = json!({"batch":b.args,"threads":w.threads,"ignorer":b.ign,"config":b.cfg});
+        let src = BCFG[b.cfg].1;
+        // expansion lists (hook) and ignored ids
+        let probe = mk_cfg_linter(src, None);
+        let eff: Vec<String> = if b.args.is_empty() { vec![w.wd.clone()] } else { b.args.clone() };
+        let exps: Vec<Vec<usize>> = eff.iter().map(|a| if Path::new(a).is_file() { vec![w.file_id(a)] } else { probe.verif_paths_from_path(PathBuf::from(a)).iter().map(|p| w.file_id(p)).collect() }).collect();
+        let ignored: Vec<usize> = TREE.iter().enumerate().filter(|(_, x)| ignored_rel(b.ign, x.0)).map(|(i, _)| i).collect();
+        let selected: Vec<usize> = exps.iter().flatten().copied().filter(|i| !ignored.contains(i)).collect();
+        let mut digests = vec![];
+        // the result alone: the reused linter twice, then a fresh one
+        for run in 0..3 {
+            let mut fresh;
+            let linter: &mut Linter = if run == 2 {
+                fresh = mk_cfg_linter(src, None);
+                &mut fresh
+            } else {
+                &mut reused[b.cfg]
+            };
+            if let Some((d, r)) = run_batch(w, b, &input, linter, ["reused", "reused-again", "fresh"][run], &exps, &ignored, &selected, None, None) {
+                digests.push(d);
+                reordered += r as usize;
+                runs += 1;
+            }
+        }
+        // the same invocation with a formatter attached (what the CLI does): the human-readable one at every
+        // verbosity, the JSON one
+        let mut vdig = vec![];
+        for v in VERBOSITIES {
+            let f = Arc::new(OutputStreamFormatter::new(None, true, v));
+            let mut l = mk_cfg_linter(src, Some(f.clone()));
+            if let Some((d, _)) = run_batch(w, b, &input, &mut l, "stream-formatter", &exps, &ignored, &selected, Some((&f, v)), None) {
+                if v >= 0 {
+                    vdig.push(d);
+                }
+            }
+        }
+        let f = Arc::new(JsonFormatter::default());
+        let mut l = mk_cfg_linter(src, Some(f.clone()));
+        if let Some((d, _)) = run_batch(w, b, &input, &mut l, "json-formatter", &exps, &ignored, &selected, None, Some(&f)) {
+            vdig.push(d);
+        }
+        w.emit(json!({"t":"digest","batch":bi,"args":b.args,"input":input,"runs":digests,"verdict_runs":vdig}));
+    }
+    let threads = w.threads.clone();
+    w.emit(json!({"t":"wstat","threads":threads,"batches":bs.len(),"plain_runs":runs,"runs_with_completion_order_different_from_expansion_order":reordered}));
+}
+
+/// `lint_string` file by file on one linter with a formatter attached, in a given order: after every
+/// file the verdict is "some file so far failed" (it never goes back), every file is counted once, and
+/// the JSON collection holds for each name what linting that file alone gives.
+fn seq_one(w: &mut Worker, order: &[usize], v: i32, cfg: usize, cls: &str) {
+    let input = json!({"seq":order,"verbosity":v,"config":cfg,"threads":w.threads});
+    let names: Vec<&str> = order.iter().map(|i| TREE[*i].0).collect();
+    let f = Arc::new(OutputStreamFormatter::new(None, true, v));
+    let j = Arc::new(JsonFormatter::default());
+    let ls = mk_cfg_linter(BCFG[cfg].1, Some(f.clone()));
+    let lj = mk_cfg_linter(BCFG[cfg].1, Some(j.clone()));
+    let refs = w.reference.clone();
+    let mut any = false;
+    let mut any_json = false;
+    let mut counts = vec![];
+    let mut bad: Option<(String, String)> = None;
+    for (k, i) in order.iter().enumerate() {
+        let (p, s) = TREE[*i];
+        let r = catch(|| {
+            let a = ls.lint_string(SNIPPETS[s], Some(p.to_string()), false);
+            let _ = lj.lint_string(SNIPPETS[s], Some(p.to_string()), false);
+            (canon(&a.violations), fail_counts(&a.violations))
+        });
+        let Ok((viols, fc)) = r else {
+            bad = Some(("c07-seq-panic".into(), format!("lint_string panicked on {}", p)));
+            break;
+        };
+        let e = &refs[cfg][*i];
+        if viols != e.viols && bad.is_none() {
+            bad = Some((format!("c07-seq-differs:{}", p), format!("{} as file {} of the sequence {:?}: {:?}, alone on a fresh linter: {:?}", p, k, names, viols, e.viols)));
+        }
+        any |= e.fails > 0;
+        any_json |= e.json_fail;
+        counts.push((fc.0, fc.1));
+        let want = v >= 0 && any;
+        if f.has_fail() != want && bad.is_none() {
+            bad = Some((format!("c07-verdict-seq:{}:v{}", BCFG[cfg].0, v), format!("verbosity {}: after linting {:?} one by one has_fail() is {}, failing so far: {:?}", v, &names[..=k], f.has_fail(), order[..=k].iter().filter(|i| refs[cfg][**i].fails > 0).map(|i| TREE[*i].0).collect::<Vec<_>>())));
+        }
+        if j.has_fail() != any_json && bad.is_none() {
+            bad = Some((format!("c07-verdict-seq:{}:json", BCFG[cfg].0), format!("after linting {:?} one by one JsonFormatter::has_fail() is {}", &names[..=k], j.has_fail())));
+        }
+    }
+    let n = f.verif_files_dispatched();
+    if bad.is_none() && n != (if v >= 0 { order.len() } else { 0 }) {
+        bad = Some((format!("c07-files-dispatched:v{}", v), format!("verbosity {}: the formatter counted {} files after {} lint_string calls", v, n, order.len())));
+    }
+    if bad.is_none() {
+        let coll: Value = serde_json::from_str(&j.verif_to_json()).unwrap_or(Value::Null);
+        for i in order {
+            let got = coll.get(TREE[*i].0).cloned().unwrap_or(Value::Null);
+            if got != refs[cfg][*i].diags {
+                bad = Some((format!("c07-json-differs:{}", TREE[*i].0), format!("{}: after the sequence {:?} the JSON collection holds {}, linting the file alone gives {}", TREE[*i].0, names, trunc(&got.to_string(), 300), trunc(&refs[cfg][*i].diags.to_string(), 300))));
+                break;
+            }
+        }
+    }
+    w.dok("lint_string-sequence", 1);
+    if let Some((key, msg)) = bad {
+        w.dfail(cls, &key, &msg, &input);
+    }
+    let g_args = g_tuple(&[g_bool(v < 0), v.unsigned_abs().to_string(), g_list(counts.iter().map(|c| g_tuple(&[c.0.to_string(), c.1.to_string()])))]);
+    let g_exp = g_tuple(&[g_bool(f.has_fail()), n.to_string()]);
+    w.emit(json!({"t":"wcase","group":"verdict","cls":cls,"nontrivial":any && v >= 0 && counts.iter().any(|c| c.0 == 0),"args":g_args,"exp":g_exp,
+        "sample":{"input":input,"counts":counts,"has_fail":f.has_fail(),"files_dispatched":n}}));
+}
+fn seq_part(w: &mut Worker, args: &Args) {
+    let mut rng = Rng::new(args.seed ^ 0x5e9 ^ fnv(&w.threads));
+    let n = if args.thorough() { 12 } else { 2 };
+    for cfg in 0..BCFG.len() {
+        // the smallest batches that mix a failing and a clean file, both orders
+        let failing = w.reference[cfg].iter().position(|e| e.fails > 0);
+        let clean = w.reference[cfg].iter().position(|e| e.fails == 0);
+        for v in VERBOSITIES {
+            if let (Some(f), Some(c)) = (failing, clean) {
+                seq_one(w, &[f, c], v, cfg, "sequence-pair");
+                seq_one(w, &[c, f], v, cfg, "sequence-pair");
+                seq_one(w, &[c, f, c, c], v, cfg, "sequence-pair");
+            }
+            // all files in tree order and reversed, then random orders of random subsets
+            let all: Vec<usize> = (0..TREE.len()).collect();
+            seq_one(w, &all, v, cfg, "sequence-tree-order");
+            seq_one(w, &all.iter().rev().copied().collect::<Vec<_>>(), v, cfg, "sequence-tree-order");
+            for _ in 0..n {
+                let mut o = all.clone();
+                rng.shuffle(&mut o);
+                o.truncate(2 + rng.below(TREE.len() - 1));
+                seq_one(w, &o, v, cfg, "sequence-random");
+            }
+        }
+    }
+}
+
+// ---- configuration histories: what is reported for (content, configuration) must not depend on which
+// other configurations were used before in the same process
+const HIST_TEXTS: [&str; 10] = [
+    "SELECT a FROM t WHERE b = __x__ AND c = {{y}}\n",
+    "SELECT a FROM t WHERE b = :x AND c = #y# AND d = <y>\n",
+    "select a,b from t where c = ? and d = $y and e = ?\n",
+    "SELECT a FROM t WHERE b = %(x)s AND c = &y AND d = %s\n",
+    "SELECT a FROM ${x}.tbl WHERE b = :1 AND c = $2 AND d = @y@\n",
+    "SeLeCt  a from t\n",
+    "SELECT aaaaaaaaaaaa, bbbbbbbbbbbb, cccccccccccc FROM some_long_table_name WHERE xxxxxxxx = 1\n",
+    "SELECT\n  a,\n    b\nFROM t\nwhere a in (1,2)\n",
+    "SELECT a::int, `b` FROM t\n",
+    "SELECT a\r\nFROM t\r\n",
+];
+fn hist_configs() -> Vec<(String, String)> {
+    let mut v: Vec<(String, String)> = vec![];
+    for d in ["ansi", "bigquery", "postgres", "snowflake", "sparksql"] {
+        v.push((format!("dialect-{}", d), format!("[sqruff]\ndialect = {}\n", d)));
+    }
+    let mut add = |name: &str, body: &str| v.push((name.to_string(), format!("[sqruff]\ndialect = ansi\n{}", body)));
+    add("rules-lt01-cp01", "rules = LT01,CP01\n");
+    add("rules-all", "rules = all\n");
+    add("exclude-lt01-lt02", "exclude_rules = LT01,LT02\n");
+    add("keywords-lower", "rules = CP01\n\n[sqruff:rules:capitalisation.keywords]\ncapitalisation_policy = lower\n");
+    add("keywords-upper", "rules = CP01\n\n[sqruff:rules:capitalisation.keywords]\ncapitalisation_policy = upper\n");
+    add("keywords-capitalise", "rules = CP01\n\n[sqruff:rules:capitalisation.keywords]\ncapitalisation_policy = capitalise\n");
+    add("max-line-30", "max_line_length = 30\n");
+    add("max-line-0", "max_line_length = 0\n");
+    add("indent-2", "\n[sqruff:indentation]\ntab_space_size = 2\n");
+    add("indent-tab", "\n[sqruff:indentation]\nindent_unit = tab\n");
+    add("comma-leading", "\n[sqruff:layout:type:comma]\nline_position = leading\n");
+    add("templater-raw", "templater = raw\n");
+    for style in ["colon", "colon_nospaces", "numeric_colon", "pyformat", "dollar", "flyway_var", "question_mark", "numeric_dollar", "percent", "ampersand", "apache_camel", "no_such_style"] {
+        add(&format!("placeholder-style-{}", style), &format!("templater = placeholder\n\n[sqruff:templater:placeholder]\nparam_style = {}\nx = 1\ny = 2\n1 = 11\n2 = 22\n", style));
+    }
+    add("placeholder-style-colon-other-values", "templater = placeholder\n\n[sqruff:templater:placeholder]\nparam_style = colon\nx = 'one'\ny = two\n");
+    for (name, re) in [("underscores", r"__(?P<param_name>\w+)__"), ("braces", r"\{\{(?P<param_name>\w+)\}\}"), ("hashes", r"#(?P<param_name>\w+)#"), ("angles", r"<(?P<param_name>\w+)>"), ("ats-positional", r"@\w+@"), ("invalid", r"(?P<param_name>\w+"), ("colon-like", r":(?P<param_name>\w+)")] {
+        add(&format!("placeholder-regex-{}", name), &format!("templater = placeholder\n\n[sqruff:templater:placeholder]\nparam_regex = {}\nx = 1\ny = 2\n1 = 11\n", re));
+    }
+    add("placeholder-regex-underscores-other-values", "templater = placeholder\n\n[sqruff:templater:placeholder]\nparam_regex = __(?P<param_name>\\w+)__\nx = 77\n");
+    add("placeholder-nothing", "templater = placeholder\n");
+    add("placeholder-both", "templater = placeholder\n\n[sqruff:templater:placeholder]\nparam_style = colon\nparam_regex = #(?P<param_name>\\w+)#\n");
+    v
+}
+/// Everything observable about linting `sql` (without fix) under a linter, as one string.
+fn hist_obs(l: &Linter, sql: &str, name: &str) -> (String, Option<String>) {
+    match catch(|| {
+        let f = l.lint_string(sql, Some(name.to_string()), false);
+        let (templated, v, np) = (f.templated_file.templated().to_string(), canon(&f.violations), f.patches.len());
+        (templated, v, np, f.fix_string())
+    }) {
+        Ok((templated, v, np, fixed)) => {
+            let pure = if np != 0 {
+                Some(format!("lint-only result carries {} patches", np))
+            } else if fixed != normalise(sql) {
+                Some(format!("fix_string of a lint-only result differs from the normalised source: {:?}", trunc(&fixed, 200)))
+            } else {
+                None
+            };
+            (format!("templated={:?} violations={:?}", templated, v), pure)
+        }
+        // (error messages quote the file name)
+        Err(m) => (format!("PANIC {}", m.replace(name, "<file>")), None),
+    }
+}
+fn hist_part(w: &mut Worker, args: &Args, only_text: Option<&str>) {
+    let cfgs = hist_configs();
+    let mut order: Vec<usize> = (0..cfgs.len()).collect();
+    // every worker process goes through the configurations in its own order
+    match w.threads.as_str() {
+        "1" => {}
+        "4" => order.reverse(),
+        t => Rng::new(args.seed ^ 0x4157 ^ fnv(t)).shuffle(&mut order),
+    }
+    let texts: Vec<&str> = match only_text {
+        Some(t) => vec![t],
+        None => HIST_TEXTS.to_vec(),
+    };
+    let dir = PathBuf::from(&w.wd).join("hist");
+    let _ = std::fs::remove_dir_all(&dir);
+    std::fs::create_dir_all(&dir).unwrap();
+    for (ti, t) in texts.iter().enumerate() {
+        std::fs::write(dir.join(format!("t{}.sql", ti)), t).unwrap();
+    }
+    let tname = |ti: usize| format!("hist/t{}.sql", ti);
+    // phase 1: a fresh linter per configuration, one after the other (lint_string, then lint_paths on the same texts)
+    let mut first: HashMap<(usize, usize), String> = HashMap::new();
+    for (pos, &ci) in order.iter().enumerate() {
+        let (cname, src) = &cfgs[ci];
+        let before: Vec<&str> = order[..pos].iter().map(|i| cfgs[*i].0.as_str()).collect();
+        let Ok(l) = catch(|| mk_cfg_linter(src, None)) else {
+            w.emit(json!({"t":"hist","cfg":cname,"text":"*","obs":"PANIC creating the linter","before":before}));
+            continue;
+        };
+        for (ti, t) in texts.iter().enumerate() {
+            let input = json!({"hist_config":cname,"config_source":src,"sql":t,"threads":w.threads,"configurations_used_before":before});
+            let (obs, impure) = hist_obs(&l, t, &tname(ti));
+            if let Some(msg) = impure {
+                w.dfail("history-lint-string", &format!("c07-lint-changes-text:{}:{:x}", cname, fnv(t) & 0xffffffff), &format!("configuration {}: {}", cname, msg), &input);
+            }
+            w.dok("history-lint-string", 1);
+            w.emit(json!({"t":"hist","cfg":cname,"source":src,"text":t,"obs":obs,"before":before}));
+            first.insert((ci, ti), obs);
+        }
+        // the parallel path under this configuration
+        let mut lp = mk_cfg_linter(src, None);
+        let r = catch(|| {
+            let res = lp.lint_paths(vec![PathBuf::from("hist")], false, &|_| false);
+            res.paths.iter().flat_map(|d| d.files.iter().map(|f| (f.path.clone(), format!("templated={:?} violations={:?}", f.templated_file.templated(), canon(&f.violations))))).collect::<Vec<_>>()
+        });
+        let input = json!({"hist_config":cname,"config_source":src,"threads":w.threads,"configurations_used_before":before});
+        match r {
+            Ok(files) => {
+                for (ti, t) in texts.iter().enumerate() {
+                    let got: Vec<&String> = files.iter().filter(|f| rel_of(&w.wd, &f.0) == tname(ti)).map(|f| &f.1).collect();
+                    let want = &first[&(ci, ti)];
+                    if got.len() != 1 || got[0] != want {
+                        w.dfail("history-lint-paths", &format!("c07-differs-from-lint-string:{}:{:x}", cname, fnv(t) & 0xffffffff), &format!("configuration {}: lint_paths on a directory holding {:?} gives {:?}, lint_string gives {}", cname, t, got, trunc(want, 400)), &input);
+                    }
+                    w.dok("history-lint-paths", 1);
+                }
+            }
+            Err(m) => {
+                // a configuration error aborts both entry points alike
+                let all_panic = (0..texts.len()).all(|ti| first[&(ci, ti)].starts_with("PANIC"));
+                if !all_panic {
+                    w.dfail("history-lint-paths", &format!("c07-lint-paths-panic:{}", cname), &format!("configuration {}: lint_paths panicked ({}) where lint_string does not", cname, trunc(&m, 200)), &input);
+                }
+                w.dok("history-lint-paths", 1);
+            }
+        }
+    }
+    // phase 2: all linters created up front, then used interleaved, text by text, in the opposite order
+    let linters: Vec<(usize, Option<Linter>)> = order.iter().map(|&ci| (ci, catch(|| mk_cfg_linter(&cfgs[ci].1, None)).ok())).collect();
+    for (ti, t) in texts.iter().enumerate() {
+        for (ci, l) in linters.iter().rev() {
+            let Some(l) = l else { continue };
+            // (one file name for all the texts: what is reported depends on the content, not on what was
+            // linted under that name before)
+            let (obs, _) = hist_obs(l, t, "hist/same.sql");
+            let (cname, src) = &cfgs[*ci];
+            if Some(&obs) != first.get(&(*ci, ti)) {
+                let input = json!({"hist_config":cname,"config_source":src,"sql":t,"threads":w.threads});
+                w.dfail("history-interleaved", &format!("c07-history-dependent:{}:{:x}", cname, fnv(t) & 0xffffffff), &format!("configuration {} on {:?}: a linter created before and used after linters of other configurations reports {}, a fresh one reported {}", cname, t, trunc(&obs, 400), trunc(first.get(&(*ci, ti)).map(|s| s.as_str()).unwrap_or("-"), 400)), &input);
+            }
+            w.dok("history-interleaved", 1);
+        }
+    }
+    let _ = std::fs::remove_dir_all(&dir);
+    let threads = w.threads.clone();
+    w.emit(json!({"t":"wstat","threads":threads,"history_configurations":cfgs.len(),"history_texts":texts.len(),"history_order":order.iter().map(|i| cfgs[*i].0.clone()).collect::<Vec<_>>()}));
+}
+
+/// One configuration alone in a process of its own: the observation nothing else can have influenced.
+fn hist_pristine(args: &Args, idx: usize) {
+    let cfgs = hist_configs();
+    let f = std::fs::File::create(&args.out).unwrap();
+    let mut wr = std::io::BufWriter::new(f);
+    let only: Option<String> = args.flag("--replay-input").and_then(|p| {
+        let v: Value = serde_json::from_str(&std::fs::read_to_string(p).ok()?).ok()?;
+        let v = if v.get("input").is_some() { v["input"].clone() } else { v };
+        v.get("sql").and_then(|s| s.as_str()).map(|s| s.to_string())
+    });
+    let texts: Vec<&str> = match &only {
+        Some(t) => vec![t.as_str()],
+        None => HIST_TEXTS.to_vec(),
+    };
+    if let Some((cname, src)) = cfgs.get(idx) {
+        match catch(|| mk_cfg_linter(src, None)) {
+            Ok(l) => {
+                for t in texts {
+                    let (obs, _) = hist_obs(&l, t, "hist/same.sql");
+                    writeln!(wr, "{}", json!({"t":"hist","cfg":cname,"source":src,"text":t,"obs":obs,"before":[]})).unwrap();
+                }
+            }
+            Err(_) => writeln!(wr, "{}", json!({"t":"hist","cfg":cname,"text":"*","obs":"PANIC creating the linter","before":[]})).unwrap(),
+        }
+    }
+    writeln!(wr, "{}", json!({"t":"wdone"})).unwrap();
+    wr.flush().unwrap();
+}
+
+/// Reference of the batches and sequences: `lint_string` of each file's content with a fresh linter each (and
+/// what the JSON formatter collects for that file alone), per configuration of `BCFG`.
+fn compute_reference() -> Vec<Vec<RefEntry>> {
+    let mut reference: Vec<Vec<RefEntry>> = vec![];
+    for (_, src) in BCFG {
+        let mut res_ids: HashMap<Vec<Viol>, usize> = HashMap::new();
+        let mut col = vec![];
+        for (p, s) in TREE.iter() {
+            let l = mk_cfg_linter(src, None);
+            let (viols, fc) = catch(|| {
+                let f = l.lint_string(SNIPPETS[*s], Some(p.to_string()), false);
+                (canon(&f.violations), fail_counts(&f.violations))
+            })
+            .unwrap_or_else(|_| (vec![(0, 0, None, "PANIC".into())], (1, 0, true)));
+            let jf = Arc::new(JsonFormatter::default());
+            let lj = mk_cfg_linter(src, Some(jf.clone()));
+            let _ = catch(|| lj.lint_string(SNIPPETS[*s], Some(p.to_string()), false).violations.len());
+            let diags = serde_json::from_str::<Value>(&jf.verif_to_json()).ok().and_then(|v| v.get(*p).cloned()).unwrap_or(Value::Null);
+            let n = res_ids.len();
+            let rid = *res_ids.entry(viols.clone()).or_insert(n);
+            col.push(RefEntry { rid, viols, fails: fc.0, json_fail: fc.2, diags });
+        }
+        reference.push(col);
+    }
+    reference
+}
+
 fn sched_worker(args: &Args, threads: &str) {
     let wd = cache_dir().join("c07-work").join(format!("{}-t{}", std::process::id(), threads));
     let _ = std::fs::remove_dir_all(&wd);
     std::fs::create_dir_all(&wd).unwrap();
+    let wd = std::fs::canonicalize(&wd).unwrap();
     std::env::set_current_dir(&wd).unwrap();
     for (p, s) in TREE {
         let path = wd.join(p);
         std::fs::create_dir_all(path.parent().unwrap()).unwrap();
         std::fs::write(&path, SNIPPETS[s]).unwrap();
     }
-    let file_id = |p: &str| TREE.iter().position(|x| x.0 == p.trim_start_matches("./")).unwrap_or(9999);
-    // reference: lint_string of each file's content with a fresh linter each
-    let mut res_ids: HashMap<Vec<Viol>, usize> = HashMap::new();
-    let mut reference: BTreeMap<usize, (usize, Vec<Viol>)> = BTreeMap::new();
-    for (i, (p, s)) in TREE.iter().enumerate() {
-        let l = mk_linter("ansi");
-        let v = catch(|| canon(&l.lint_string(SNIPPETS[*s], Some(p.to_string()), false).violations)).unwrap_or_else(|_| vec![(0, 0, None, "PANIC".into())]);
-        let n = res_ids.len();
-        let id = *res_ids.entry(v.clone()).or_insert(n);
-        reference.insert(i, (id, v));
-    }
-    let bs: Vec<Batch> = if let Some(one) = args.flag("--one-batch") {
-        vec![Batch { cls: "replay", args: one.split(',').map(|s| s.to_string()).collect() }]
-    } else {
-        batches(args)
-    };
     let f = std::fs::File::create(&args.out).unwrap();
-    let mut wr = std::io::BufWriter::new(f);
-    let mut reused = mk_linter("ansi");
-    let mut reordered = 0usize;
-    for (bi, b) in bs.iter().enumerate() {
-        let input = json!({"batch":b.args,"threads":threads});
-        // expansion lists (hook) and ignored ids
-        let probe = mk_linter("ansi");
-        let exps: Vec<Vec<usize>> = b.args.iter().map(|a| {
-            if Path::new(a).is_file() { vec![file_id(a)] } else { probe.verif_paths_from_path(PathBuf::from(a)).iter().map(|p| file_id(p)).collect() }
-        }).collect();
-        let ignored: Vec<usize> = TREE.iter().enumerate().filter(|(_, x)| ignorer(Path::new(x.0))).map(|(i, _)| i).collect();
-        let selected: Vec<usize> = exps.iter().flatten().copied().filter(|i| !ignored.contains(i)).collect();
-        let mut digests = vec![];
-        for run in 0..3 {
-            // run 0, 1: the reused linter; run 2: a fresh linter
-            let mut fresh;
-            let linter: &mut Linter = if run == 2 {
-                fresh = mk_linter("ansi");
-                &mut fresh
-            } else {
-                &mut reused
+    let mut w = Worker { wd: wd.to_string_lossy().to_string(), threads: threads.to_string(), reference: Rc::new(vec![]), wr: std::io::BufWriter::new(f) };
+    let replay: Option<Value> = args.flag("--replay-input").map(|p| {
+        let v: Value = serde_json::from_str(&std::fs::read_to_string(p).unwrap()).unwrap();
+        if v.get("input").is_some() { v["input"].clone() } else { v }
+    });
+    match replay {
+        Some(v) if v.get("batch").is_some() => {
+            w.reference = Rc::new(compute_reference());
+            let b = Batch {
+                cls: "replay",
+                args: v["batch"].as_array().map(|a| a.iter().map(|x| x.as_str().unwrap_or("").to_string()).collect()).unwrap_or_default(),
+                ign: v["ignorer"].as_u64().unwrap_or(0) as usize % N_IGNORERS,
+                cfg: v["config"].as_u64().unwrap_or(0) as usize % BCFG.len(),
             };
-            let paths: Vec<PathBuf> = b.args.iter().map(PathBuf::from).collect();
-            let r = catch(|| {
-                let res = linter.lint_paths(paths, false, &ignorer);
-                res.paths.iter().map(|d| (d.path.clone(), d.files.iter().map(|f| {
-                    let v = canon(&f.violations);
-                    let np = f.patches.len();
-                    (f.path.clone(), v, np)
-                }).collect::<Vec<_>>())).collect::<Vec<_>>()
-            });
-            let dirs = match r {
-                Ok(d) => d,
-                Err(m) => {
-                    writeln!(wr, "{}", json!({"t":"dfail","cls":b.cls,"key":"c07-lint-paths-panic","msg":format!("lint_paths panicked: {}", m),"input":input})).unwrap();
-                    continue;
-                }
-            };
-            let mut fails: Vec<(String, String)> = vec![];
-            let mut seen: HashMap<usize, usize> = HashMap::new();
-            let mut observed: Vec<Vec<(usize, usize)>> = vec![];
-            let mut dig: Vec<(String, u64)> = vec![];
-            for (di, (dpath, files)) in dirs.iter().enumerate() {
-                if di >= b.args.len() || *dpath != b.args[di] {
-                    fails.push(("c07-dir-order".into(), format!("directory {} of the result is {:?}, argument is {:?}", di, dpath, b.args.get(di))));
-                }
-                let mut bucket = vec![];
-                for (p, v, np) in files {
-                    let id = file_id(p);
-                    *seen.entry(id).or_default() += 1;
-                    let rid = match reference.get(&id) {
-                        Some((rid, rv)) if rv == v => *rid,
-                        Some((_, rv)) => {
-                            fails.push((format!("c07-differs-from-lint-string:{}", p), format!("{}: lint_paths reports {:?}, lint_string reports {:?}", p, v, rv)));
-                            8888
-                        }
-                        None => 9999,
-                    };
-                    if *np != 0 {
-                        fails.push((format!("c07-lint-patches:{}", p), format!("{}: lint-only result carries {} patches", p, np)));
-                    }
-                    if di < exps.len() && !exps[di].contains(&id) {
-                        fails.push((format!("c07-wrong-dir:{}", p), format!("{} stored under argument {:?}", p, dpath)));
-                    }
-                    bucket.push((id, rid));
-                    dig.push((p.clone(), fnv(&format!("{:?}", v))));
-                }
-                observed.push(bucket);
-            }
-            for s in &selected {
-                let n = seen.get(s).copied().unwrap_or(0);
-                if n != 1 {
-                    fails.push((format!("c07-not-exactly-once:{}", TREE.get(*s).map(|x| x.0).unwrap_or("?")), format!("selected file {} appears {} times in the result", TREE.get(*s).map(|x| x.0).unwrap_or("?"), n)));
-                }
-            }
-            for (id, _) in &seen {
-                if !selected.contains(id) {
-                    fails.push((format!("c07-unselected:{}", id), format!("file {:?} was not selected but appears in the result", TREE.get(*id).map(|x| x.0))));
-                }
-            }
-            writeln!(wr, "{}", json!({"t":"dcount","n":1})).unwrap();
-            for (key, msg) in &fails {
-                writeln!(wr, "{}", json!({"t":"dfail","cls":b.cls,"key":key,"msg":msg,"input":input})).unwrap();
-            }
-            let order: Vec<usize> = observed.iter().flatten().map(|x| x.0).collect();
-            if order != selected {
-                reordered += 1;
-            }
-            let g_args = g_tuple(&[
-                g_list(exps.iter().map(|e| g_list(e.iter().map(|i| i.to_string())))),
-                g_list(ignored.iter().map(|i| i.to_string())),
-                g_list(reference.iter().map(|(i, (rid, _))| g_tuple(&[i.to_string(), rid.to_string()]))),
-                g_list(order.iter().map(|i| i.to_string())),
-            ]);
-            let g_exp = g_list(observed.iter().map(|b| g_list(b.iter().map(|(i, r)| g_tuple(&[i.to_string(), r.to_string()])))));
-            let multi = b.args.len() > 1 && selected.len() > 2;
-            let run_name = ["reused", "reused-again", "fresh"][run];
-            writeln!(wr, "{}", json!({"t":"wcase","group":"sched","cls":b.cls,"nontrivial":multi,"args":g_args,"exp":g_exp,
-                "sample":{"input":input,"run":run_name,"expansions":exps,"observed":observed}})).unwrap();
-            dig.sort();
-            digests.push(fnv(&format!("{:?}", dig)));
+            batch_part(&mut w, &[b]);
         }
-        writeln!(wr, "{}", json!({"t":"digest","batch":bi,"args":b.args,"runs":digests})).unwrap();
+        Some(v) if v.get("seq").is_some() => {
+            w.reference = Rc::new(compute_reference());
+            let order: Vec<usize> = v["seq"].as_array().map(|a| a.iter().map(|x| x.as_u64().unwrap_or(0) as usize % TREE.len()).collect()).unwrap_or_default();
+            seq_one(&mut w, &order, v["verbosity"].as_i64().unwrap_or(0) as i32, v["config"].as_u64().unwrap_or(0) as usize % BCFG.len(), "replay");
+        }
+        Some(v) if v.get("hist_config").is_some() => hist_part(&mut w, args, v.get("sql").and_then(|s| s.as_str())),
+        _ => {
+            // the histories first: nothing has been linted in this process yet, so the first configuration ever
+            // used differs from one worker process to the next (a process-wide cache filled by the first
+            // user shows as a difference between the processes); the reference of the batches comes after
+            hist_part(&mut w, args, None);
+            w.reference = Rc::new(compute_reference());
+            let bs = batches(args);
+            seq_part(&mut w, args);
+            batch_part(&mut w, &bs);
+        }
     }
-    writeln!(wr, "{}", json!({"t":"wstat","threads":threads,"batches":bs.len(),"runs_with_completion_order_different_from_expansion_order":reordered})).unwrap();
-    writeln!(wr, "{}", json!({"t":"wdone"})).unwrap();
-    wr.flush().unwrap();
+    w.emit(json!({"t":"wdone"}));
+    w.wr.flush().unwrap();
     let _ = std::env::set_current_dir("/");
     let _ = std::fs::remove_dir_all(&wd);
 }
@@ -490,19 +992,30 @@ pub fn main(args: &Args) {
         sched_worker(args, &t);
         return;
     }
+    if let Some(i) = args.flag("--hist-pristine") {
+        hist_pristine(args, i.parse().unwrap_or(0));
+        return;
+    }
     let mut out = Out::new(&args.out);
     let mut thread_counts: Vec<String> = vec!["1".into(), "4".into(), "16".into()];
-    let mut one_batch: Option<String> = None;
     let mut run_purity = true;
     let mut run_sched = true;
+    let mut pristine: Vec<usize> = (0..hist_configs().len()).collect();
     let mut items = vec![];
-    if let Some(path) = args.flag("--replay-input") {
+    let replay_path = args.flag("--replay-input");
+    if let Some(path) = &replay_path {
         let v: Value = serde_json::from_str(&std::fs::read_to_string(path).unwrap()).unwrap();
         let v = if v.get("input").is_some() { v["input"].clone() } else { v };
-        if let Some(b) = v.get("batch").and_then(|b| b.as_array()) {
-            one_batch = Some(b.iter().map(|x| x.as_str().unwrap_or("").to_string()).collect::<Vec<_>>().join(","));
+        if let Some(c) = v.get("hist_config").and_then(|c| c.as_str()) {
+            // a history-dependent result shows as a difference between the processes: all of them
+            run_purity = false;
+            pristine.retain(|i| hist_configs()[*i].0 == c);
+        } else if v.get("batch").is_some() || v.get("seq").is_some() {
+            pristine.clear();
             if let Some(t) = v.get("threads").and_then(|t| t.as_str()) {
-                thread_counts = vec![t.to_string()];
+                if thread_counts.iter().any(|x| x == t) {
+                    thread_counts = vec![t.to_string()];
+                }
             }
             run_purity = false;
         } else {
@@ -522,53 +1035,130 @@ pub fn main(args: &Args) {
             let wout = tmp.join(format!("{}-worker-{}.jsonl", std::process::id(), t));
             let mut cmd = std::process::Command::new(&exe);
             cmd.arg("c07").arg("--tier").arg(&args.tier).arg("--seed").arg(args.seed.to_string()).arg("--out").arg(&wout).arg("--sched-worker").arg(t);
-            if let Some(b) = &one_batch {
-                cmd.arg("--one-batch").arg(b);
+            if let Some(p) = &replay_path {
+                cmd.arg("--replay-input").arg(p);
             }
             cmd.env("RAYON_NUM_THREADS", t);
             children.push((t.clone(), cmd.spawn().expect("spawn worker"), wout));
         }
     }
+    // every configuration of the histories alone in a process of its own (a few at a time)
+    let pristine_runs = {
+        let (exe, tmp, tier, seed, replay_path) = (exe.clone(), tmp.clone(), args.tier.clone(), args.seed, replay_path.clone());
+        let todo = if run_sched { pristine } else { vec![] };
+        std::thread::spawn(move || {
+            let mut texts: Vec<(usize, String, bool)> = vec![];
+            for chunk in todo.chunks(6) {
+                let mut ch = vec![];
+                for i in chunk {
+                    let wout = tmp.join(format!("{}-pristine-{}.jsonl", std::process::id(), i));
+                    let mut cmd = std::process::Command::new(&exe);
+                    cmd.arg("c07").arg("--tier").arg(&tier).arg("--seed").arg(seed.to_string()).arg("--out").arg(&wout).arg("--hist-pristine").arg(i.to_string());
+                    if let Some(p) = &replay_path {
+                        cmd.arg("--replay-input").arg(p);
+                    }
+                    cmd.env("RAYON_NUM_THREADS", "1");
+                    ch.push((*i, cmd.spawn().expect("spawn pristine"), wout));
+                }
+                for (i, mut c, wout) in ch {
+                    let ok = c.wait().map(|s| s.success()).unwrap_or(false);
+                    texts.push((i, std::fs::read_to_string(&wout).unwrap_or_default(), ok));
+                    let _ = std::fs::remove_file(&wout);
+                }
+            }
+            texts
+        })
+    };
     if run_purity {
         par_run(&mut out, &items, Linters::new, purity_one);
     }
-    let mut digests: BTreeMap<u64, Vec<(String, Vec<u64>, Value)>> = BTreeMap::new();
+    let mut digests: BTreeMap<u64, Vec<(String, Vec<u64>, Vec<u64>, Value)>> = BTreeMap::new();
+    // (configuration, text) -> per worker: (threads, observation, configurations used before, source)
+    let mut hist: BTreeMap<(String, String), Vec<(String, String, Value, String)>> = BTreeMap::new();
     let mut ok_workers = 0;
-    let nworkers = children.len();
+    let mut nworkers = children.len();
+    for (_, text, ok) in pristine_runs.join().unwrap_or_default() {
+        nworkers += 1;
+        let mut done = false;
+        for l in text.lines() {
+            let Ok(v) = serde_json::from_str::<Value>(l) else { continue };
+            let s = |k: &str| v[k].as_str().unwrap_or("").to_string();
+            match v["t"].as_str().unwrap_or("") {
+                "hist" => hist.entry((s("cfg"), s("text"))).or_default().push(("alone".into(), s("obs"), v["before"].clone(), s("source"))),
+                "wdone" => done = true,
+                _ => {}
+            }
+        }
+        if ok && done {
+            ok_workers += 1;
+        }
+    }
+    out.stat(json!({"history_configurations_alone_in_a_process": nworkers - children.len()}));
     for (t, mut ch, wout) in children {
         let status = ch.wait().expect("wait");
         let text = std::fs::read_to_string(&wout).unwrap_or_default();
         let _ = std::fs::remove_file(&wout);
         let mut buf = Buf::default();
         let mut done = false;
-        let mut extra_direct = 0usize;
         for l in text.lines() {
             let Ok(v) = serde_json::from_str::<Value>(l) else { continue };
+            let s = |k: &str| v[k].as_str().unwrap_or("").to_string();
             match v["t"].as_str().unwrap_or("") {
-                "wcase" => buf.case(v["group"].as_str().unwrap_or(""), v["cls"].as_str().unwrap_or(""), v["nontrivial"].as_bool().unwrap_or(false), v["args"].as_str().unwrap_or("").to_string(), v["exp"].as_str().unwrap_or("").to_string(), v["sample"].clone()),
-                "dfail" => buf.direct(v["cls"].as_str().unwrap_or(""), false, v["key"].as_str().unwrap_or(""), v["msg"].as_str().unwrap_or(""), v["input"].clone()),
-                "dcount" => extra_direct += 1,
-                "digest" => digests.entry(v["batch"].as_u64().unwrap_or(0)).or_default().push((t.clone(), v["runs"].as_array().unwrap().iter().map(|x| x.as_u64().unwrap_or(0)).collect(), v["args"].clone())),
+                "wcase" => buf.case(&s("group"), &s("cls"), v["nontrivial"].as_bool().unwrap_or(false), s("args"), s("exp"), v["sample"].clone()),
+                "dfail" => buf.direct(&s("cls"), false, &s("key"), &s("msg"), v["input"].clone()),
+                "dcount" => {
+                    for _ in 0..v["n"].as_u64().unwrap_or(1) {
+                        buf.direct(&s("cls"), true, "", "", Value::Null);
+                    }
+                }
+                "digest" => {
+                    let u = |k: &str| v[k].as_array().map(|a| a.iter().map(|x| x.as_u64().unwrap_or(0)).collect::<Vec<_>>()).unwrap_or_default();
+                    digests.entry(v["batch"].as_u64().unwrap_or(0)).or_default().push((t.clone(), u("runs"), u("verdict_runs"), v["input"].clone()))
+                }
+                "hist" => hist.entry((s("cfg"), s("text"))).or_default().push((t.clone(), s("obs"), v["before"].clone(), s("source"))),
                 "wstat" => out.stat(v.clone()),
                 "wdone" => done = true,
                 _ => {}
             }
-        }
-        for _ in 0..extra_direct {
-            buf.direct("lint_paths-run", true, "", "", Value::Null);
         }
         out.absorb(buf);
         if status.success() && done {
             ok_workers += 1;
         }
     }
-    // across runs, linters, thread counts and processes: identical per-file violation lists
+    // across runs, linters, thread counts and processes: identical per-file violation lists, identical verdicts
     let mut buf = Buf::default();
     for (b, ds) in &digests {
+        let mut input = ds[0].3.clone();
+        input["threads"] = json!(ds.iter().map(|d| d.0.clone()).collect::<Vec<_>>().join("/"));
         let all: Vec<u64> = ds.iter().flat_map(|d| d.1.iter().copied()).collect();
         let same = all.windows(2).all(|w| w[0] == w[1]);
-        let input = json!({"batch":ds[0].2,"threads":ds.iter().map(|d| d.0.clone()).collect::<Vec<_>>().join("/")});
-        buf.direct("cross-run-digest", same, &format!("c07-nondeterministic-batch:{}", b), &format!("batch {:?}: results differ across runs / linters / thread counts: {:?}", ds[0].2, ds), input);
+        buf.direct("cross-run-digest", same, &format!("c07-nondeterministic-batch:{}", b), &format!("batch {}: results differ across runs / linters / thread counts: {:?}", input, ds.iter().map(|d| (&d.0, &d.1)).collect::<Vec<_>>()), input.clone());
+        let all: Vec<u64> = ds.iter().flat_map(|d| d.2.iter().copied()).collect();
+        let same = all.windows(2).all(|w| w[0] == w[1]);
+        buf.direct("cross-run-verdict", same, &format!("c07-nondeterministic-verdict:{}", b), &format!("batch {}: results or verdicts with a formatter attached differ across verbosities / formatters / thread counts: {:?}", input, ds.iter().map(|d| (&d.0, &d.2)).collect::<Vec<_>>()), input);
+    }
+    // across processes that went through the configurations in different orders: identical observations
+    for ((cfg, text), obs) in &hist {
+        let same = obs.windows(2).all(|w| w[0].1 == w[1].1);
+        let input = json!({"hist_config":cfg,"config_source":obs[0].3,"sql":text,
+            "histories":obs.iter().map(|o| json!({"threads":o.0,"configurations_used_before":o.2,"observed":trunc(&o.1, 600)})).collect::<Vec<_>>()});
+        buf.hyp("H_pure_history (what is reported for (content, configuration) is the same whatever configurations the process used before)", "blocking", same, input.clone());
+        let msg = if same {
+            String::new()
+        } else {
+            // one entry per distinct observation
+            let mut distinct: Vec<(&String, Vec<String>)> = vec![];
+            for o in obs {
+                let who = if o.0 == "alone" { "alone in a process of its own".to_string() } else { format!("in the process with {} thread(s), after {} other configurations", o.0, o.2.as_array().map(|a| a.len()).unwrap_or(0)) };
+                match distinct.iter_mut().find(|d| *d.0 == o.1) {
+                    Some(d) => d.1.push(who),
+                    None => distinct.push((&o.1, vec![who])),
+                }
+            }
+            format!("configuration {} on {:?}: the result depends on which configurations were used earlier in the process: {}", cfg, text, distinct.iter().map(|d| format!("[{}: {}]", d.1.join(" and "), trunc(d.0, 300))).collect::<Vec<_>>().join(" vs "))
+        };
+        buf.direct("history-across-processes", same, &format!("c07-history-dependent:{}:{:x}", cfg, fnv(text) & 0xffffffff), &msg, input);
     }
     out.absorb(buf);
     if ok_workers != nworkers {
